@@ -93,7 +93,7 @@ pub fn rfc_cause(ev: Ev, a: St, b: St) -> bool {
         (Ev::Timeout, Some(TimeWait), None) => true,
         (Ev::Seg { ack, rst, syn, .. }, None, Some(SynReceived)) => syn && !rst && !ack,
         (Ev::Seg { ack, rst, .. }, Some(SynSent), None) => rst && ack,
-        (Ev::Seg { ack, rst, syn, .. }, Some(SynSent), Some(Established)) => syn && ack && !rst,
+        (Ev::Seg { rst, syn, .. }, Some(SynSent), Some(Established)) => syn && !rst,
         (Ev::Seg { rst, syn, .. }, Some(SynSent), Some(SynReceived)) => syn && !rst,
         (Ev::Seg { ack, rst, .. }, Some(LastAck), None) => rst || ack,
         (Ev::Seg { rst, .. }, Some(_), None) => rst,
